@@ -491,8 +491,15 @@ func genC09(t *rapid.T, maxActions int) (*DCase, map[string]bool) {
 	doc, isArr := c09Doc(t)
 	g.files = []DFile{{Name: "in", Docs: []string{gen.Compact(doc)}}}
 	if isArr {
-		g.guard = ast.Bin("==", ast.Id("$index"), ast.Num("0"))
 		g.labels["array-root"] = true
+		if rapid.IntRange(0, 2).Draw(t, "everyelement") == 0 {
+			// no guard: the whole action list runs once per element, so every site is
+			// evaluated several times, on different elements and on variables that carry
+			// over from the previous round
+			g.labels["actions-repeated-per-element"] = true
+		} else {
+			g.guard = ast.Bin("==", ast.Id("$index"), ast.Num("0"))
+		}
 	}
 	set := func(n string, v *ast.Node) *ast.Node { return ast.ExprS(ast.Set(ast.Id(n), v)) }
 	g.stmts = []*ast.Node{
